@@ -52,6 +52,18 @@ func nodesFromBreaks(lo, hi float64, br []float64, sLeft, sRight float64) []node
 			b = append(b, v)
 		}
 	}
+	if len(b) == 0 { // no break point inside the support: one in the middle (or one scale from a finite end)
+		switch {
+		case !isInf(lo) && !isInf(hi):
+			b = append(b, lo+(hi-lo)/2)
+		case !isInf(lo):
+			b = append(b, lo+math.Max(sRight, 1))
+		case !isInf(hi):
+			b = append(b, hi-math.Max(sLeft, 1))
+		default:
+			b = append(b, 0)
+		}
+	}
 	var ns []node
 	if isInf(lo) {
 		ns = append(ns, tanhSinh(panelLeftInf, 0, b[0], sLeft, false)...)
@@ -138,7 +150,7 @@ func wrapEval(cs *fw.Case, ev map[string]any, sigHead string, xs []float64, mk f
 
 func runWrappers(c *fw.Ctx) {
 	/* log transform: X = exp(Y) - c, Y ~ base */
-	c.Cases("wrap.logtransform", c.N(160, 4000), func(cs *fw.Case) {
+	c.Cases("wrap.logtransform", c.N(300, 4000), func(cs *fw.Case) {
 		r := cs.R
 		name := []string{"normal", "cauchy", "gev"}[cs.Index%3]
 		f := famByName(name)
@@ -190,7 +202,7 @@ func runWrappers(c *fw.Ctx) {
 	})
 
 	/* translation: LogPdf(x) = base.LogPdf(x + c) */
-	c.Cases("wrap.translation", c.N(160, 4000), func(cs *fw.Case) {
+	c.Cases("wrap.translation", c.N(300, 4000), func(cs *fw.Case) {
 		r := cs.R
 		name := wrapBases[cs.Index%len(wrapBases)]
 		f := famByName(name)
@@ -220,7 +232,7 @@ func runWrappers(c *fw.Ctx) {
 	})
 
 	/* mixture */
-	c.Cases("wrap.mixture", c.N(200, 5000), func(cs *fw.Case) {
+	c.Cases("wrap.mixture", c.N(400, 5000), func(cs *fw.Case) {
 		r := cs.R
 		k := r.Range(1, 4)
 		names := make([]string, k)
@@ -287,7 +299,7 @@ func runWrappers(c *fw.Ctx) {
 	})
 
 	/* i.i.d. and independent products (vector distributions over scalar bases) */
-	c.Cases("wrap.product", c.N(240, 6000), func(cs *fw.Case) {
+	c.Cases("wrap.product", c.N(480, 6000), func(cs *fw.Case) {
 		r := cs.R
 		iid := cs.Index%2 == 0
 		n := r.Range(1, 5)
